@@ -133,7 +133,8 @@ def mn_do_and(ir, instr, ra, rs, arg2):
     return ret, []
 
 def mn_do_cntlzw(ir, instr, ra, rs):
-    ret = [ ExprAssign(ra, ExprOp('cntleadzeros', rs)) ]
+    rvalue = ExprOp('cntleadzeros', rs)
+    ret = [ ExprAssign(ra, rvalue) ]
 
     if instr.name[-1] == '.':
         ret += mn_compute_flags(rvalue)
